@@ -19,6 +19,19 @@ from tola.assembly.scaffold import Scaffold
 
 ALPHA = [("F", 1, 1), ("F", 3, 1), ("F", 3, -1), ("F", 5, 1), ("G", 1, 0), ("G", 2, 0)]
 
+# rows long enough for a short bait to overhang by more than every error length on both sides
+LONGROW = [
+    [("F", 12, 1)],
+    [("F", 12, -1)],
+    [("F", 7, 1)],
+    [("F", 12, 1), ("G", 1, 0)],
+    [("G", 2, 0), ("F", 12, 1)],
+    [("F", 1, 1), ("F", 12, 1)],
+    [("F", 12, 1), ("F", 1, 1)],
+    [("F", 12, 1), ("G", 2, 0), ("F", 12, -1)],
+    [("F", 3, 1), ("G", 1, 0), ("F", 12, 1), ("G", 1, 0), ("F", 3, 1)],
+]
+
 OPS = (
     [("discard_start",), ("discard_end",)]
     + [("trim_large_overhangs", e) for e in (1, 2, 4)]
@@ -111,11 +124,16 @@ class C18(Check):
     def shards(self, tier):
         k = self.bounds(tier)["max_rows"]
         out = [("one", i, k) for i in range(6)]
+        out += [("longrow", i) for i in range(len(LONGROW))]
         out += [("pre", i, j, k) for i in range(6) for j in range(6)]
         return out
 
     def run_shard(self, shard, ctx):
         k = shard[-1]
+        if shard[0] == "longrow":
+            self.explore_scaffold(LONGROW[shard[1]], ctx)
+            ctx.sample({"scaffold": LONGROW[shard[1]], "baits": "all", "ops": "BFS to fixpoint"})
+            return
         if shard[0] == "one":
             self.explore_scaffold([ALPHA[shard[1]]], ctx)
             return
@@ -314,4 +332,4 @@ class C18(Check):
 
 CHECK = C18()
 # scope added in later rounds, kept in the evidence text
-CHECK.rule += ' Scaffolds that list the same contig interval twice (rows equal by value, distinct objects).'
+CHECK.rule += ' Scaffolds that list the same contig interval twice (rows equal by value, distinct objects). Long-row family: nine scaffolds with rows of 7 / 12 bases (a short bait overhangs by more than every error length on both sides).'
